@@ -13,7 +13,7 @@ import itertools
 
 from hypothesis import strategies as st
 
-from vlib.runner import Outcome
+from vlib.runner import Outcome, sut_raised
 
 ID = "C01"
 RULE = ("Hypothesis op lists (<=60 quick / <=150 thorough) over a pool of <=24/48 SimEvents (plain and user-defined subclasses) with times "
@@ -121,10 +121,22 @@ def _key_time(t):
 
 
 def run_case(case):
+    out = Outcome()
+    try:
+        return _run_case(case, out)
+    except Exception as e:
+        # every generated operation is a valid one: an exception escaping from the event list is a failure of it
+        if not sut_raised(e):
+            raise
+        import traceback
+        out.fail("operation-raises:" + type(e).__name__, traceback.format_exc()[-600:])
+        return out
+
+
+def _run_case(case, out):
     from pydsol.core.eventlist import EventListHeap
     from pydsol.core.simevent import SimEvent
 
-    out = Outcome()
     out.label("ttype=" + case["ttype"])
     class TimeoutEvent(SimEvent):
         pass
